@@ -61,7 +61,7 @@ let report prop c msg =
   if Hashtbl.find fails prop <= 25 then Printf.printf "JUDGE-FAIL %s %s %s\n" prop c.id msg
 
 let judge_case (c : scase) (o : iobs) =
-  let (_, mresults, _, states) = run_model c in
+  let (_, mresults, mfinal, states) = run_model c in
   let ncalls_done = List.length o.results in
   let calls = take ncalls_done c.calls in
   let results = List.map res_of_string o.results in
@@ -86,6 +86,8 @@ let judge_case (c : scase) (o : iobs) =
         bump applicable prop;
         let ok =
           if k.expect = "ERR" then String.length got > 0 && got.[0] = 'E'
+          else if k.expect.[0] = '?' then   (* an error or exactly the value *)
+            (String.length got > 0 && got.[0] = 'E') || got = String.sub k.expect 1 (String.length k.expect - 1)
           else got = k.expect in
         if not ok then report prop c (Printf.sprintf "call %d (%s/%d) expected %s got %s" i k.kind k.addr k.expect got);
         if prop = "C05" then begin
@@ -160,6 +162,17 @@ let judge_case (c : scase) (o : iobs) =
       if last_typed && not (List.mem "BAD" o.lines) then begin
         let txs = String.concat "" (List.map (fun l -> List.hd (String.split_on_char '/' l)) o.lines) in
         if txs <> String.concat "" o.written then report "C18" c "tx parts of the I/O log differ from the frames written"
+      end;
+      (* the rx parts: when the implementation's port traffic and results are the model's, every line is the
+         model's line -- whose rx part is, by C18_one_line, the bytes consumed during that call *)
+      if not (List.mem "BAD" o.lines)
+         && hex_of_bytes o.deliv = hex_of_bytes mfinal.pt.delivered
+         && o.written = List.map hex_of_bytes mfinal.pt.written
+         && o.results = List.map res_string mresults then begin
+        let mlines = List.map (fun (tx, rx) -> hex_of_bytes tx ^ "/" ^ hex_of_bytes rx) mfinal.io_lines in
+        if o.lines <> mlines then
+          report "C18" c ("an I/O log line does not hold the bytes written / consumed during its call: logged "
+                          ^ String.concat "," o.lines ^ " consumed " ^ String.concat "," mlines)
       end;
       List.iteri (fun i rp ->
           if rp <> "-" then begin
